@@ -281,7 +281,7 @@ fn reg_iter(reg: &Reg) -> ([u32; 8], usize) {
     (buf, n)
 }
 
-fn reg_accessors(reg: &Reg) -> ([u32; 8], usize) {
+pub fn reg_accessors(reg: &Reg) -> ([u32; 8], usize) {
     let mut b = [0u32; 8];
     let n = match reg {
         Reg::Two(h) => {
@@ -912,22 +912,34 @@ impl C19 {
                 }
                 Op::SortInPlace { r } => {
                     let r = *r as usize % NREGS;
-                    if let Some(reg) = regs[r].as_mut() {
+                    if let Some(mut tmp) = regs[r] {
                         let n = model[r].n as usize;
                         at(step, kind, SIZE_NAMES[n]);
-                        reg_sort_in_place(reg);
-                        // Sorting is another property's subject (C11): the array model
-                        // takes the observed result and is held to it from here on.
-                        let (a, an) = reg_to_arr(reg);
-                        model[r] = M::of(&a[..an.min(7)]);
-                        over[r] = 0;
-                        obs.hit(P_SORT);
-                        obs.cell(cell(kind, n, 0, 0));
-                        h = fold(h, r as u64);
-                        if obs.tracing() {
-                            obs.log(format!("#{} r{}({}).sort_in_place() -> observed {} (model re-read; not demanded by C19)", step, r, SIZE_NAMES[n], words_str(&a[..an])));
+                        // Sorting is another property's subject (C11), and so is whether it accepts
+                        // arbitrary words: if it panics, the register is simply given up.
+                        let sorted = std::panic::catch_unwind(std::panic::AssertUnwindSafe(|| reg_sort_in_place(&mut tmp))).is_ok();
+                        if sorted {
+                            regs[r] = Some(tmp);
+                            // The array model takes the observed result and is held to it from here on.
+                            let (a, an) = reg_to_arr(&tmp);
+                            model[r] = M::of(&a[..an.min(7)]);
+                            over[r] = 0;
+                            obs.hit(P_SORT);
+                            obs.cell(cell(kind, n, 0, 0));
+                            h = fold(h, r as u64);
+                            if obs.tracing() {
+                                obs.log(format!("#{} r{}({}).sort_in_place() -> observed {} (model re-read; not demanded by C19)", step, r, SIZE_NAMES[n], words_str(&a[..an])));
+                            }
+                            touched = Some(r);
+                        } else {
+                            regs[r] = None;
+                            model[r] = M::EMPTY;
+                            over[r] = 0;
+                            obs.hit(P_NOOP);
+                            if obs.tracing() {
+                                obs.log(format!("#{} r{}({}).sort_in_place() panicked: register given up (sorting is not judged by C19)", step, r, SIZE_NAMES[n]));
+                            }
                         }
-                        touched = Some(r);
                     } else {
                         obs.hit(P_NOOP);
                     }
@@ -1810,6 +1822,10 @@ impl World for C19 {
             }
         }
         Some(ops)
+    }
+
+    fn anchored_files() -> &'static [&'static str] {
+        &["/src/cards/two.rs", "/src/cards/three.rs", "/src/cards/four.rs", "/src/cards/five.rs", "/src/cards/six.rs", "/src/cards/seven.rs", "/src/cards/mod.rs"]
     }
 
     fn builder_kinds() -> &'static [usize] {
